@@ -311,7 +311,12 @@ def g_bleu(rng, cfg, n):
 
 def g_perplexity(rng, cfg, n):
     V, S = 3, 2
-    return Batch((ft(rng.grid(n * S * V, [Fr(-1), Fr(0), Fr(1)]), shape=(n, S, V)), it([rng.randrange(V) for _ in range(n * S)], shape=(n, S))))
+    ig = cfg.get("ignore_index")
+    labels = [rng.randrange(V) for _ in range(n * S)]
+    if ig is not None and not (0 <= ig < V):
+        # a padding id outside the vocabulary (the usual -100): present in about a third of the positions
+        labels = [ig if rng.random() < 0.3 else v for v in labels]
+    return Batch((ft(rng.grid(n * S * V, [Fr(-1), Fr(0), Fr(1)]), shape=(n, S, V)), it(labels, shape=(n, S))))
 
 
 def g_psnr(rng, cfg, n):
@@ -477,7 +482,7 @@ def _specs() -> list[Spec]:
         Spec("WordInformationLost", M.WordInformationLost, [{}], g_text, cat={}, functional=_f(F.word_information_lost), family="text"),
         Spec("WordInformationPreserved", M.WordInformationPreserved, [{}], g_text, cat={}, functional=_f(F.word_information_preserved), family="text"),
         Spec("BLEUScore", M.BLEUScore, [{"n_gram": 2}, {"n_gram": 1}, {"n_gram": 3}], g_bleu, cat={}, functional=_f(F.bleu_score, "n_gram"), family="text", tol=1e-4),
-        Spec("Perplexity", M.Perplexity, [{}, {"ignore_index": 1}], g_perplexity, cat=c01, functional=_f(F.perplexity, "ignore_index"), family="text", tol=1e-4),
+        Spec("Perplexity", M.Perplexity, [{}, {"ignore_index": 1}, {"ignore_index": -100}], g_perplexity, cat=c01, functional=_f(F.perplexity, "ignore_index"), family="text", tol=1e-4),
         Spec("BinaryNormalizedEntropy", M.BinaryNormalizedEntropy, [{}, {"num_tasks": 2}, {"from_logits": True}], g_ne, cat=tasks, functional=_f(F.binary_normalized_entropy, "num_tasks", "from_logits"), family="ne", tol=1e-4),
         Spec("PeakSignalNoiseRatio", M.PeakSignalNoiseRatio, [{}, {"data_range": 2.0}], g_psnr, cat=c01, functional=_f(F.peak_signal_noise_ratio, "data_range"), family="image", tol=1e-4),
         Spec("Wasserstein1D", Wasserstein1D, [{}], g_wasserstein, cat={0: 0, 1: 0, 2: 0, 3: 0}, family="stat", tol=1e-4),
@@ -489,7 +494,7 @@ def _specs() -> list[Spec]:
         Spec("WindowedWeightedCalibration", M.WindowedWeightedCalibration, [{"max_num_updates": 3}, {"max_num_updates": 2, "num_tasks": 2}, {"max_num_updates": 3, "enable_lifetime": False}], g_wc, kind="window", family="window", model=None, count_states=("total_updates",)),
         Spec("WindowedBinaryNormalizedEntropy", M.WindowedBinaryNormalizedEntropy, [{"max_num_updates": 3}, {"max_num_updates": 2, "num_tasks": 2}, {"max_num_updates": 3, "enable_lifetime": False}], g_ne, kind="window", family="window", tol=1e-4),
         Spec("WindowedMeanSquaredError", M.WindowedMeanSquaredError, [{"max_num_updates": 3}, {"max_num_updates": 2, "enable_lifetime": False}, {"max_num_updates": 2, "num_tasks": 2, "_d": 2}], g_mse, kind="window", family="window", model=None, count_states=("total_updates", "sum_weight")),
-        Spec("WindowedBinaryAUROC", M.WindowedBinaryAUROC, [{"max_num_samples": 5}, {"max_num_samples": 4, "num_tasks": 2}], g_binary_tasks_w, kind="window", family="window"),
+        Spec("WindowedBinaryAUROC", M.WindowedBinaryAUROC, [{"max_num_samples": 5}, {"max_num_samples": 4, "num_tasks": 2}], g_binary_tasks_w, kind="window", family="window", sizes=(1, 2, 3, 4, 5, 7)),
     ]
     return S
 
